@@ -31,11 +31,14 @@ func (h *Header[T]) IsPresent() bool {
 
 // Removes the matching header from the given HTTP header map and sets the value of this Header to nil.
 func (h *Header[T]) SyncRemove(headers http.Header) {
+	// Remove the header from the map even if its value could not be parsed (and is therefore
+	// not present here): an unparsed value must not be forwarded upstream either.
+	delete(headers, h.name)
+
 	if h.value.IsNone() {
 		return
 	}
 
-	delete(headers, h.name)
 	h.value = typeutils.None[T]()
 	slog.Debug("Removed header from request:", "header", h.name)
 }
